@@ -157,15 +157,15 @@ def _case(kind, cfg, k, mode=0):
 
 def w_crash(kind: int, cfg: int, k: int, mode: int) -> str:
     """
-    pre: PARTITION is None or cfg == PARTITION
-    pre: 0 <= kind < 6 and 0 <= cfg < 12 and 0 <= k < kbound(PARTITION) and 0 <= mode < 3
+    pre: PARTITION is None or (cfg == PARTITION[0] and mode == PARTITION[1])
+    pre: 0 <= kind < 6 and 0 <= cfg < 12 and 0 <= k < kbound(None if PARTITION is None else PARTITION[0]) and 0 <= mode < 3
     post: _ == ''
     """
-    return _case(rt.sel(kind, 6), rt.sel(cfg, 12), rt.sel(k, kbound(PARTITION)), rt.sel(mode, 3))
+    return _case(rt.sel(kind, 6), rt.sel(cfg, 12), rt.sel(k, kbound(None if PARTITION is None else PARTITION[0])), rt.sel(mode, 3))
 
 
 def obligations(tier):
-    return [CH('W_crash_point_x_kind_x_config', MOD, 'w_crash', timeout=2400, partitions=list(range(12)), engine='W',
+    return [CH('W_crash_point_x_kind_x_config', MOD, 'w_crash', timeout=2400, partitions=[(c, md) for c in range(12) for md in range(3)], engine='W',
                regime='selector', encodes=K.PUT_FUNCS + ['shutil.move/copytree/copy2/rmtree, os.makedirs (CPython source over the model)'],
                stubs=K.STUBS + ['SIGKILL -> sticky BaseException at the k-th system call', 'SIGINT -> one KeyboardInterrupt instead of / right after the k-th system call'],
                bounds='crash point k in 0..(longest undisturbed run of the configuration, measured) x 3 ways of dying (fail-stop; KeyboardInterrupt '
